@@ -1001,18 +1001,39 @@ RELATIONS = [GenotypeRel(), PhenotypeRel(), ReplicatesRel()]
 
 LEVEL_TEXT = (
     "Coq theorems for EVERY generator (state machine S, reseed, draw) and every program drawing from it: with the "
-    "guard `seed is not None` simgenotype's outputs and final generator state are a function of seed and inputs only "
-    "(history-independent, seed 0 included; the pinned guard `if seed:` is refuted at 0); simphenotype never reads "
-    "process state when seeded and threads one generator through its replicates (replicate r+1 starts from the state "
-    "r left; the re-seeding mutant yields copies). Tied to /repo on every run by double runs in one process - Python "
-    "entry points and CliRunner - with the generators disturbed in between, comparing generator states at the first "
-    "draw / around every replicate with the model and .bp / VCF-BCF-PGEN content / .pheno bytes with each other."
+    "guard `seed is not None` simgenotype's outputs, the state before EVERY draw, the values drawn and the final "
+    "generator state are a function of seed and inputs only (history-independent, seed 0 included; the pinned guard "
+    "`if seed:` is refuted at 0); simphenotype never reads process state when seeded and threads one generator through "
+    "its replicates (replicate r+1 starts from the state r left; the re-seeding mutant yields copies for every "
+    "generator, the threaded loop pairwise different noise for every generator that does not revisit a state); the "
+    "replication loop on one simulator object appends, for every number of replications (induction on R), "
+    "pheno(g, draw_k) as column k, so replicate k depends on the inputs and on the draw of replicate k only (stated "
+    "for any two generators agreeing on draw k; the cached-genetic-component-updated-in-place loop is refuted). "
+    "Tied to /repo on every run by double runs in one process - Python entry points and CliRunner - with the "
+    "generators disturbed in between, comparing the generator state at every np.random call / around every replicate "
+    "with the model and .bp / VCF-BCF-PGEN content / .pheno bytes with each other, and by single runs with 2-6 "
+    "replications whose recorded float noise vectors, written columns and zero-noise genetic component are checked "
+    "inside Coq: column_k - noise_k is one vector for all k (case/control: the cases are a top set of genetic + "
+    "noise_k), noise_k pairwise different, and (agreement) noise_k = the k-th consecutive draw of a copy of the "
+    "simulator's generator, column_k = fl(genetic + noise_k) bit for bit."
 )
 LEVEL_NOTE = (
     "Partial: numpy's generators are an abstract deterministic state machine (their determinism is trusted); "
-    "'independent draws' is proved structurally (one threaded generator, never re-created), not statistically; "
+    "'independent draws' is proved and checked structurally (one threaded generator, never re-created; every column "
+    "= the one genetic component + the noise drawn for that replicate; noise vectors pairwise different on the real "
+    "generator in every run), not statistically - no theorem says that consecutive draws of PCG64 are stochastically "
+    "independent; "
+    "the simgenotype theorems quantify over abstract drawing programs `prog` (Ret | Draw request continuation), NOT "
+    "over the C01-C03 models: those models are functions of an already RECORDED list of draws (e.g. C01 sim_sample "
+    "h0 hdraws events) and consume it on demand, and they are not re-expressed as `prog` terms here. What is proved "
+    "instead is the bridge C10_run_replay / C10_recorded_model_history_independent: IF a stage's result is such a "
+    "model applied to the draws recorded during the run (model i ds = replay (P i) ds - the statement the C01-C03 "
+    "correspondences test on generated inputs but do not prove of the code), THEN the seeded command's output is that "
+    "model applied to a draw list fixed by seed and inputs; the hypothesis is not discharged for the C01-C03 models; "
     "that the simulators use no other source of randomness than the modelled generator is established by the "
-    "double runs (byte/content equality), not by proof; hash-iteration determinism relies on PYTHONHASHSEED."
+    "double runs (byte/content equality, equal np.random call traces of the legacy global API; a private Generator "
+    "or the `random` module inside simgenotype would only show through differing outputs), not by proof; "
+    "hash-iteration determinism relies on PYTHONHASHSEED."
 )
 TECHNIQUE = "Coq proof over an abstract generator (Section variables) + vm_compute-evaluated double-run correspondence"
 
